@@ -12,6 +12,9 @@ contracts are reused; functions not listed below are assumed with the contracts 
   W4  every connect attempt ends in exactly one of: connection delivered to the block (stacked, a waiter woken), a retry scheduled
       (pending_conns >= 1 again), or -- retries exhausted -- all waiters of the block informed (BasePool._connect)
   W5  capacity units are never leaked: that is C15's CAP invariant (reported usage == real usage), not repeated here
+  W6  the rebalancing tick stays armed while acquire requests are in flight (`_nacquires > 0  =>  a tick is scheduled`): part of the yield invariant
+      proved by the C15 check (TICK()); here its key step -- Pool._tick re-arms itself before anything can return -- is an AST dominance obligation, so
+      that a change of it is reported with a definite verdict instead of a solver timeout
 """
 import os
 from contracts.C15 import world as c15
@@ -46,6 +49,39 @@ def build():
                  # given up: nobody is left waiting uninformed
                  'implies(g_outcome == 2, len(block.conn_waiters) == 0)'])
     return w
+
+def extra_obligations(w, tier, seed):
+    import ast
+    from pyvc import repo
+    out = []
+    def ob(oid, clause, ok, where, undecided=False):
+        return dict(id=oid, kind='dominance', clause=clause, tag='property', paths=1, status='discharged' if ok else ('unknown' if undecided else 'failed'), backend='ast-scan', seconds=0.0,
+                    model=None if ok else {'offending_source_location': where}, where=where, function='ast-scan')
+    fn, _ = repo.find_def(POOLPY, 'Pool._tick')
+    body = [st for st in fn.body if not (isinstance(st, ast.Expr) and isinstance(st.value, ast.Constant))]
+    # W6: `self._htick = None` is immediately followed (no return / raise / loop in between) by `if self._nacquires: self._maybe_schedule_tick()`
+    idx_clear = [i for i, st in enumerate(body) if ast.unparse(st) == 'self._htick = None']
+    rearm = lambda st: (isinstance(st, ast.If) and ast.unparse(st.test) in ('self._nacquires', 'self._nacquires > 0', 'self._nacquires != 0') and not st.orelse
+                        and any(ast.unparse(x) == 'self._maybe_schedule_tick()' for x in st.body)) or ast.unparse(st) == 'self._maybe_schedule_tick()'
+    idx_rearm = [i for i, st in enumerate(body) if rearm(st)]
+    ok = False; where = '%s Pool._tick: `self._htick = None` at top-level positions %s, re-arm at %s' % (POOLPY, idx_clear, idx_rearm)
+    und = not idx_clear
+    if idx_clear and idx_rearm:
+        i, j = idx_clear[0], idx_rearm[0]
+        between = body[i + 1:j]
+        escapes = any(isinstance(n, (ast.Return, ast.Raise, ast.For, ast.While, ast.Try, ast.With, ast.Await)) for st in between for n in ast.walk(st))
+        ok = j > i and not escapes
+    out.append(ob('scan/tick-rearm-dominates', 'Pool._tick: after clearing the handle the tick re-arms itself (when acquire requests are in flight) before any statement that can return, raise or loop', ok, where, undecided=und))
+    # only _tick clears the handle
+    mod = repo.module(POOLPY); clears = []
+    for cname in ('BasePool', 'Pool', 'Block'):
+        for st in mod.classes[cname].body:
+            if isinstance(st, (ast.FunctionDef, ast.AsyncFunctionDef)):
+                for n in ast.walk(st):
+                    if isinstance(n, ast.Assign) and any(ast.unparse(t).endswith('._htick') for t in n.targets) and ast.unparse(n.value) == 'None':
+                        clears.append('%s.%s' % (cname, st.name))
+    out.append(ob('scan/tick-handle-cleared-only-by-tick', 'the tick handle is reset to None only by Pool._tick (and the constructor)', sorted(set(clears)) in (['Pool.__init__', 'Pool._tick'], ['Pool._tick']), 'writers of `_htick = None`: %s' % clears))
+    return out
 
 def scenarios(tier, seed, repo_root, outdir):
     return c15._run_scenarios(tier, seed, repo_root, outdir, 'failure_C16')
